@@ -6,7 +6,7 @@
 (* transition (history, result, expected post-state) as one JSON line so   *)
 (* that the harness replays each one into the real library.                *)
 (***************************************************************************)
-EXTENDS NetBuild, Json
+EXTENDS NetBuild, Json, IOUtils
 
 CONSTANTS MaxDepth, Profile, MaxPath, EmitOn
 
@@ -16,8 +16,8 @@ MCNameOf == [x \in NodeIds \cup LinkIds \cup OrigIds \cup DestIds |->
                  [] x \in OrigIds -> (IF x = "o1" THEN "O" ELSE "R")
                  [] x \in DestIds -> "D"]
 
-VARIABLES S, res, hist
-vars == <<S, res, hist>>
+VARIABLES S, res, hist, depth
+vars == <<S, res, hist, depth>>
 View == S
 
 Objs == NodeIds \cup LinkIds
@@ -45,25 +45,48 @@ RECURSIVE SeqsUpTo(_, _)
 SeqsUpTo(A, k) == IF k = 0 THEN {<<>>} ELSE LET P == SeqsUpTo(A, k - 1) IN P \cup {Append(p, a) : p \in {q \in P : Len(q) = k - 1}, a \in A}
 AllPaths == {<<"add_path", p, o, d>> : p \in SeqsUpTo(Objs, MaxPath), o \in {"", "o1"}, d \in {"", "d1"}}
 
+\* profile "near": start from every valid network shape enumerated by DynCases (read back from SHAPES_FILE), built
+\* through the API, and explore every single further call: near-valid graphs, where ONE condition decides the verdict
+Shapes == IF Profile = "near" THEN ndJsonDeserialize(IOEnv.SHAPES_FILE) ELSE <<>>
+NId(a) == "n" \o ToString(a)
+ClassRank(s, a, ramp) == Cardinality({b \in 1..a : s.orig[b] # "none" /\ ((s.orig[b] = "ramp") = ramp)})
+DestRank(s, a) == Cardinality({b \in 1..a : s.dest[b] # "none"})
+BaseCalls(s) ==
+  [j \in DOMAIN s.edges |-> <<"add_link", NId(s.edges[j][1]), "l" \o ToString(j), NId(s.edges[j][2])>>]
+  \o Flat([a \in 1..s.n |-> IF s.orig[a] = "none" THEN <<>>
+                             ELSE <<<<"add_origin", (IF s.orig[a] = "ramp" THEN "r" ELSE "o") \o ToString(ClassRank(s, a, s.orig[a] = "ramp")), NId(a)>>>>])
+  \o Flat([a \in 1..s.n |-> IF s.dest[a] = "none" THEN <<>> ELSE <<<<"add_destination", "d" \o ToString(DestRank(s, a)), NId(a)>>>>])
+RECURSIVE FoldCalls(_, _)
+FoldCalls(T, cs) == IF cs = <<>> THEN T ELSE FoldCalls(Apply(T, Head(cs)).S, Tail(cs))
+NearCalls == {<<"add_node", n>> : n \in NodeIds}
+             \cup {<<"add_link", u, l, v>> : u \in NodeIds, l \in {"l1", "l6"}, v \in NodeIds}
+             \cup {<<"add_origin", o, n>> : o \in {"o1", "o4", "r1", "r4"}, n \in NodeIds}
+             \cup {<<"add_destination", d, n>> : d \in {"d1", "d4"}, n \in NodeIds}
+
 Calls == CASE Profile = "cache" -> SingleMut \cup ReadCalls \cup ViewCalls \cup BulkCalls \cup FewPaths
+           [] Profile = "near" -> NearCalls
            [] Profile = "valid" -> SingleMut \cup ValidPaths
            [] Profile = "path"  -> AllPaths \cup {<<"add_link", "n1", "l1", "n2">>, <<"add_origin", "o1", "n1">>, <<"add_node", "n2">>}
 
 CallEnabled(c) == c[1] \in {"out_links", "in_links"} => c[2] \in Range(S.nodes)
 
-Init == S = EmptyState /\ res = <<"init">> /\ hist = <<>>
+Init == /\ res = <<"init">> /\ depth = 0
+        /\ IF Profile = "near"
+           THEN \E i \in DOMAIN Shapes : hist = BaseCalls(Shapes[i]) /\ S = FoldCalls(EmptyState, hist)
+           ELSE S = EmptyState /\ hist = <<>>
 Next == \E c \in Calls :
           /\ CallEnabled(c)
           /\ LET a == Apply(S, c) IN S' = a.S /\ res' = a.res
           /\ hist' = Append(hist, c)
-Bound == Len(hist) <= MaxDepth
+          /\ depth' = depth + 1
+Bound == depth <= MaxDepth
 Spec == Init /\ [][Next]_vars
 
 -----------------------------------------------------------------------------
 (* what the harness compares after replaying hist' in the real library *)
 PredIter(T) == Flat([i \in DOMAIN T.nodes |-> [j \in DOMAIN Pred(T, T.nodes[i]) |-> Pred(T, T.nodes[i])[j]]])
 Pairs(f) == [i \in DOMAIN NodesWith(S', f) |-> <<NodesWith(S', f)[i], f[NodesWith(S', f)[i]]>>]
-Emit == (EmitOn /\ Len(hist') <= MaxDepth) =>
+Emit == (EmitOn /\ depth' <= MaxDepth) =>
           PrintT("TRANS " \o ToJson(
             [h |-> hist', res |-> res',
              nodes |-> S'.nodes, links |-> LinkIter(S'), preds |-> PredIter(S'),
